@@ -9,6 +9,7 @@ From Bac Require Import Schema.
 From Bac Require Import Codec.
 From Bac Require Import CodecFacts.
 From Bac Require Import CodecWf.
+From Bac Require Import CodecTotal.
 From Bac Require Import SchemaTables.
 From BacGen Require Import Schemas.
 Open Scope N_scope.
@@ -16,9 +17,12 @@ Open Scope N_scope.
 (* Round trip of the schema-driven codec, for EVERY schema in the supported fragment that passes the
    determinism check, every value of it (any presence pattern, alternative, list length, nesting
    depth), in front of any continuation the enclosing construct may put there.
-   _partial: `supported` leaves out 12 of the 227 definitions (C03_supported_or_listed names them:
-   un-contexted optional constructs decoded by try/roll-back, optional lists, NameValue, the
-   un-contexted alternative); those are covered by the correspondence only. *)
+   Round 2: `supported` now contains optional lists, un-contexted optional constructs decoded by
+   try / roll-back, NameValue, ArrayOf and choices that have an undecodable alternative; ALL 227 translated
+   definitions are supported (C03_supported_or_listed).
+   _partial only because has_ty (a value may choose an alternative only if Choice.decode can reach and
+   select it: sup_alt for it and for every alternative before it) excludes the values of finding C03-K1,
+   for which the statement is false (C03_unctx_alternative_refuted). *)
 Theorem C03_roundtrip_partial : forall t, supported t = true -> wf_ty t = true ->
   forall v ts rest, has_ty t v -> encode t v = Ok ts -> rest_ok (avoid t) rest ->
   decode t (ts ++ rest) = Ok (v, rest).
@@ -31,10 +35,10 @@ Print Assumptions C03_roundtrip_partial.
    re-tagging, opening / closing tags) is derived (CodecWf.encode_tags_wf). *)
 Theorem C03_pdu_roundtrip : forall els,
   supported (TSeq els) = true -> wf_ty (TSeq els) = true ->
-  forall v, has_ty (TSeq els) v -> val_wf v -> (exists ts, encode (TSeq els) v = Ok ts) ->
+  forall v, has_ty (TSeq els) v -> val_wf v ->
   exists bs, encode_pdu (TSeq els) v = Ok bs /\ decode_pdu (TSeq els) bs = Ok v /\
              forall v', decode_pdu (TSeq els) bs = Ok v' -> encode_pdu (TSeq els) v' = Ok bs.
-Proof. exact pdu_roundtrip_wf. Qed.
+Proof. exact pdu_roundtrip_total. Qed.
 Print Assumptions C03_pdu_roundtrip.
 
 (* the encoder only emits well-formed tags *)
@@ -57,26 +61,46 @@ Theorem C03_trailing_refused : forall els, supported (TSeq els) = true -> wf_ty 
 Proof. exact pdu_trailing_refused. Qed.
 Print Assumptions C03_trailing_refused.
 
-(* _partial: only for encoder output; that NO input exhausts the fuel (every successful item decode of a
-   non-nullable type consumes a tag) is not proved — the harness runs every decode under a watchdog *)
-Theorem C03_fuel_enough_partial : forall t, supported t = true -> wf_ty t = true ->
-  forall v ts rest, has_ty t v -> encode t v = Ok ts -> rest_ok (avoid t) rest ->
-  decode t (ts ++ rest) <> Err OutOfFuel.
-Proof. exact fuel_enough_on_encodings. Qed.
-Print Assumptions C03_fuel_enough_partial.
+(* the encoder never refuses a well-typed value (any schema) *)
+Theorem C03_encode_total : forall t v, has_ty t v -> exists ts, encode t v = Ok ts.
+Proof. exact encode_total. Qed.
+Print Assumptions C03_encode_total.
+
+(* the decoder on ARBITRARY (hostile) tag lists, for every wf_ty schema: it returns a value and a suffix of
+   its input, or fails with one of the listed exception classes (dec_err: DecodingError, InvalidTag,
+   MissingRequired, InvalidParameterDatatype, ValueErr, IndexErr, AttrErr, StructErr, UnicodeErr,
+   RuntimeErr, OtherErr) — in particular the list loops never run out of fuel: the Python loops terminate *)
+Theorem C03_decode_total : forall t, wf_ty t = true -> forall ts,
+  (exists v ts', decode t ts = Ok (v, ts') /\ exists pre, ts = pre ++ ts')
+  \/ (exists e, decode t ts = Err e /\ dec_err e = true).
+Proof. exact decode_total. Qed.
+Print Assumptions C03_decode_total.
+
+Theorem C03_fuel_enough : forall t, wf_ty t = true -> forall ts, decode t ts <> Err OutOfFuel.
+Proof. exact decode_fuel_enough. Qed.
+Print Assumptions C03_fuel_enough.
+
+(* arbitrary octets through APCISequence.decode: a value, a listed class (InvalidTag for bad framing), or
+   TooManyArguments *)
+Theorem C03_decode_pdu_total : forall els, wf_ty (TSeq els) = true -> forall bs,
+  (exists v, decode_pdu (TSeq els) bs = Ok v)
+  \/ (exists e, decode_pdu (TSeq els) bs = Err e /\ (dec_err e = true \/ e = TooManyArguments)).
+Proof. exact decode_pdu_total. Qed.
+Print Assumptions C03_decode_pdu_total.
 
 (* table obligations (re-checked by make against the tables translated on this run) *)
 Theorem C03_all_wf : forallb wf_ty all_types = true.
 Proof. exact SchemaTables.C03_all_wf. Qed.
 Print Assumptions C03_all_wf.
 
-Theorem C03_supported_or_listed : forall n t, In (n, t) all_named ->
-  supported t = true \/ In n unsupported_names.
-Proof. exact supported_or_listed. Qed.
+Theorem C03_supported_or_listed : forall n t, In (n, t) all_named -> supported t = true.
+Proof.
+  intros n t H. apply all_types_supported. unfold all_types. apply in_map_iff. exists (n, t). auto.
+Qed.
 Print Assumptions C03_supported_or_listed.
 
-(* hence: every registered PDU and every base type outside the listed 12 round-trips *)
-Theorem C03_tables_roundtrip : forall n t, In (n, t) all_named -> ~ In n unsupported_names ->
+(* hence: every registered PDU and every base type round-trips (values as delimited by has_ty) *)
+Theorem C03_tables_roundtrip : forall n t, In (n, t) all_named ->
   forall v ts rest, has_ty t v -> encode t v = Ok ts -> rest_ok (avoid t) rest ->
   decode t (ts ++ rest) = Ok (v, rest).
 Proof. exact tables_roundtrip. Qed.
@@ -179,3 +203,34 @@ Proof.
   - exact C03_has_ty_readproperty.
   - exact (proj1 C03_rest_ok_example).
 Qed.
+
+(* round 2: the definitions that were outside the supported fragment *)
+Example C03_supported_round2 :
+  forallb (fun t => supported t && wf_ty t)
+    [T_WhoHasRequest; T_ReadRangeRequest; T_CreateObjectRequest; T_VTCloseError; T_NameValue;
+     T_NameValueCollection; T_NotificationParameters; T_ConfirmedEventNotificationRequest;
+     T_UnconfirmedEventNotificationRequest; T_EventNotificationParameters] = true.
+Proof. vm_compute. reflexivity. Qed.
+
+Definition ex_whohas : val :=   (* Who-Has, no limits (the un-contexted optional WhoHasLimits is absent), object name "x" *)
+  VSeq [None; Some (VChoice 1 (VAtom (mkTag 0 7 2 [0;120])))].
+Example C03_has_ty_whohas : has_ty T_WhoHasRequest ex_whohas.
+Proof. cbn. repeat split; try (vm_compute; reflexivity); try lia. Qed.
+Example C03_instance_rollback :   (* the try / roll-back path, through the theorem *)
+  decode T_WhoHasRequest ([mkTag 1 3 2 [0;120]] ++ []) = Ok (ex_whohas, []).
+Proof.
+  apply C03_roundtrip_partial; try (vm_compute; reflexivity); try exact I.
+  exact C03_has_ty_whohas.
+Qed.
+
+Definition ex_namevalue : val :=  (* NameValue "x" with a DateTime value *)
+  VSeq [Some (VAtom (mkTag 0 7 2 [0;120]));
+        Some (VSeq [Some (VAtom (mkTag 0 10 4 [92;11;17;2])); Some (VAtom (mkTag 0 11 4 [22;45;30;70]))])].
+Example C03_has_ty_namevalue : has_ty T_NameValue ex_namevalue.
+Proof. cbn. repeat split; try (vm_compute; reflexivity); try lia. Qed.
+
+Example C03_hostile_input :   (* totality on garbage: a lone closing tag, an unmatched opening tag *)
+  decode T_ReadPropertyMultipleACK [mkTag 3 1 0 []] = Ok (VSeq [Some (VList [])], [mkTag 3 1 0 []]) /\
+  decode T_ReadAccessResult [mkTag 1 0 4 [0;0;0;1]; mkTag 2 1 0 []; mkTag 2 9 0 []] = Err InvalidTag.
+Proof. split; vm_compute; reflexivity. Qed.
+
